@@ -127,7 +127,7 @@ def run(ctx):
                 cases.append((version, "".join(w)))
     # other versions, random longer words, and runs across the counter-clear boundary
     for _ in range(ctx.n(100, 1000)):
-        v = ctx.rng.choice([4, 5, 6, 7, 9, 10, 11, 12, 13, 14])
+        v = ctx.rng.choice([4, 5, 6, 7, 9, 10, 11, 12, 13, 14, 15, 16, 255])   # (newer than the newest handler: driven like the newest)
         n = ctx.rng.randint(8, 40)
         cases.append((v, "".join(ctx.rng.choice("oouutttei") for _ in range(n))))
     for version in (4, 8, 14):   # the NCP answers the keep-alive with an invalid-command frame
@@ -135,6 +135,10 @@ def run(ctx):
             for w in itertools.product("oti", repeat=n):
                 if "i" in w:
                     cases.append((version, "".join(w)))
+    for v in (15, 16, 255):
+        for n in range(1, 4):
+            for w in itertools.product("ote", repeat=n):
+                cases.append((v, "".join(w)))
     for v in (4, 7, 14):
         n = 2 * period + 40
         cases.append((v, "".join(ctx.rng.choice("ooooooooote") for _ in range(n))))
